@@ -55,6 +55,10 @@ type MinerS struct {
 	ApplyHeight uint64 `json:"applyHeight"`
 	Status      byte   `json:"status"`
 }
+type CodeS struct {
+	Addr string `json:"addr"`
+	Code string `json:"code"` // hex
+}
 type TxS struct {
 	Source string `json:"source"`
 	Target string `json:"target,omitempty"`
@@ -74,6 +78,7 @@ type Scenario struct {
 	Accounts  []Acct   `json:"accounts"`
 	Escrow    []Esc    `json:"escrow,omitempty"`
 	Miners    []MinerS `json:"miners,omitempty"`
+	Contracts []CodeS  `json:"contracts,omitempty"` // runtime code already deployed in the parent state
 	Group     []string `json:"group,omitempty"` // member ids (hex); empty = header without GroupId
 	Castor    string   `json:"castor,omitempty"`
 	Txs       []TxS    `json:"txs"`
@@ -185,6 +190,9 @@ func buildParent(sc *Scenario) (common.Hash, account.AccountDatabase) {
 	}
 	for _, e := range sc.Escrow {
 		s.SetData(escrowAddr(e.H), unhex(e.Id), bigOf(e.V).Bytes())
+	}
+	for _, c := range sc.Contracts {
+		s.SetCode(common.BytesToAddress(unhex(c.Addr)), unhex(c.Code))
 	}
 	for _, mi := range sc.Miners {
 		mm := &types.Miner{Id: unhex(mi.Id), PublicKey: []byte{1}, VrfPublicKey: []byte{1}, ApplyHeight: mi.ApplyHeight,
@@ -805,6 +813,202 @@ func genScenario(r *hx.Rng, i int, allowOpaque bool) *Scenario {
 	return sc
 }
 
+
+// ---------------------------------------------------------------- EVM-heavy scenarios (searcher only)
+
+var evmStats = map[string]int{}
+
+var evmPool = []string{
+	"00000000000000000000000000000000000000aa", "00000000000000000000000000000000000000bb",
+	"00000000000000000000000000000000000000cc", "1111111111111111111111111111111111111111",
+	"abcdefabcdefabcdefabcdefabcdefabcdefabcd", "ffffffffffffffffffffffffffffffffffffff01",
+	"2222222222222222222222222222222222222222", "3333333333333333333333333333333333333333",
+	"4444444444444444444444444444444444444444", "5555555555555555555555555555555555555555",
+	"6666666666666666666666666666666666666666", "7777777777777777777777777777777777777777",
+	"8888888888888888888888888888888888888888", "9999999999999999999999999999999999999999",
+	"00000000000000000000000000000000000d0001", "00000000000000000000000000000000000d0002",
+}
+
+// wrapRuntime = init code that returns `runtime` (CODECOPY wrapper, 12-byte prefix), optionally
+// preceded by constructor work.
+func wrapRuntime(ctor, runtime string) string {
+	n := len(runtime) / 2
+	off := len(ctor)/2 + 12
+	return ctor + fmt.Sprintf("60%02x60%02x60003960%02x6000f3", n, off, n) + runtime
+}
+
+// payTo = CALL(gas, addr, value, 0,0,0,0) POP
+func payTo(addr string, value byte) string {
+	return "6000600060006000" + fmt.Sprintf("60%02x", value) + "73" + addr + "5af150"
+}
+
+// runtimeLib: small runtimes a contract can have. beneficiary/addresses are drawn from the pool.
+func runtimeLib(r *hx.Rng) string {
+	other := evmPool[r.Intn(len(evmPool))]
+	switch r.Intn(9) {
+	case 0:
+		return "33ff" // SELFDESTRUCT(CALLER)
+	case 1:
+		return "73" + other + "ff" // SELFDESTRUCT(fixed address)
+	case 2:
+		return "30ff" // SELFDESTRUCT(ADDRESS): to itself
+	case 3:
+		return "6001600054016000554360015500" // slot0++, slot1 = NUMBER
+	case 4:
+		return "3460005534600155" + "33600255" + "00" // slots = CALLVALUE, CALLER
+	case 5: // pay three accounts out of the contract's balance, then write storage
+		return payTo(evmPool[r.Intn(len(evmPool))], 1) + payTo(evmPool[r.Intn(len(evmPool))], 2) + payTo(other, 3) + "6001600055" + "00"
+	case 6: // write storage, then self-destruct to a fixed address
+		return "602a600755" + "73" + other + "ff"
+	case 7: // log, then clear a slot
+		return "60006000a0" + "6000600055" + "00"
+	default: // pay one account then self-destruct to caller
+		return payTo(other, 1) + "33ff"
+	}
+}
+
+func initLib(r *hx.Rng) string {
+	other := evmPool[r.Intn(len(evmPool))]
+	switch r.Intn(10) {
+	case 0:
+		return "33ff" // self-destructs while being created, to the creator
+	case 1:
+		return "73" + other + "ff" // … to another address
+	case 2:
+		return "30ff" // … to itself
+	case 3:
+		return "602a600755" + "33ff" // constructor writes storage, then self-destructs
+	case 4:
+		return testContractData
+	case 5:
+		return wrapRuntime("602a600755", runtimeLib(r)) // constructor storage + runtime
+	case 6:
+		return payTo(other, 1) + "33ff" // pays out of the endowment, self-destructs
+	case 7:
+		return "fe" // invalid opcode: creation fails
+	default:
+		return wrapRuntime("", runtimeLib(r))
+	}
+}
+
+func contractData(r *hx.Rng, abi string, value string) string {
+	gl := []string{"3000000", "3000000", "3000000", "100000", "", "60000"}[r.Intn(6)]
+	d, _ := json.Marshal(types.ContractData{GasLimit: gl, TransferValue: value, AbiData: "0x" + abi})
+	return string(d)
+}
+
+func valueStr(r *hx.Rng) string {
+	return []string{"0", "0", "1", "0.5", "0.000000000000000003", "7", ""}[r.Intn(7)]
+}
+
+// manyTargets: a transfer that dirties several accounts, biased to the addresses of interest
+func manyTargets(r *hx.Rng, interest []string, n int) string {
+	var parts []string
+	seen := map[string]bool{}
+	for q := 0; q < n; q++ {
+		a := evmPool[r.Intn(len(evmPool))]
+		if len(interest) > 0 && r.Chance(1, 2) {
+			a = interest[r.Intn(len(interest))]
+		}
+		if seen[a] {
+			continue
+		}
+		seen[a] = true
+		amt := []string{"5", "1", "0.25", "0", "2", "0.000000000000000001"}[r.Intn(6)]
+		parts = append(parts, `"0x`+a+`":{"balance":"`+amt+`"}`)
+	}
+	return "{" + strings.Join(parts, ",") + "}"
+}
+
+// genEvmScenario: contract creations (some self-destructing during creation), calls into
+// pre-deployed and freshly created contracts (self-destructing, storage writing, paying out),
+// followed in the same block by transfers / value calls to the created, destroyed and otherwise
+// touched addresses, with many dirty accounts per block.  The addresses created in the block are
+// learnt from one probe execution of the first half, then the follow-ups are appended.
+func genEvmScenario(r *hx.Rng, i int) *Scenario {
+	sc := &Scenario{Name: fmt.Sprintf("evm-%d", i), Height: uint64(100 + r.Intn(500)), Flags: "111111", P026: true}
+	senders := []string{evmPool[6], evmPool[7], evmPool[8]}[:1+r.Intn(3)]
+	for _, a := range senders {
+		sc.Accounts = append(sc.Accounts, Acct{a, e18(1000).String(), 0})
+	}
+	for k := r.Intn(4); k > 0; k-- { // a few more funded bystanders
+		sc.Accounts = append(sc.Accounts, Acct{evmPool[r.Intn(6)], e18(int64(1 + r.Intn(9))).String(), 0})
+	}
+	var interest []string
+	npre := r.Intn(4)
+	for k := 0; k < npre; k++ {
+		addr := fmt.Sprintf("00000000000000000000000000000000c0de%04x", k)
+		sc.Contracts = append(sc.Contracts, CodeS{addr, runtimeLib(r)})
+		interest = append(interest, addr)
+		if r.Bool() {
+			sc.Accounts = append(sc.Accounts, Acct{addr, e18(int64(1 + r.Intn(5))).String(), 0})
+		}
+	}
+	req := uint64(0)
+	ordered := r.Chance(3, 4)
+	nextReq := func() uint64 {
+		if !ordered {
+			return 0
+		}
+		req++
+		return req
+	}
+	mk := func(x TxS) {
+		x.Hash = randHash(r)
+		x.Req = nextReq()
+		sc.Txs = append(sc.Txs, x)
+	}
+	nbase := 1 + r.Intn(4)
+	for k := 0; k < nbase; k++ {
+		src := "0x" + senders[r.Intn(len(senders))]
+		switch r.Intn(5) {
+		case 0, 1, 2: // creation
+			mk(TxS{Source: src, Type: 200, Data: contractData(r, initLib(r), valueStr(r))})
+		case 3: // call into a pre-deployed contract (or a plain address)
+			tgt := evmPool[r.Intn(len(evmPool))]
+			if len(interest) > 0 {
+				tgt = interest[r.Intn(len(interest))]
+			}
+			mk(TxS{Source: src, Type: 200, Target: "0x" + tgt, Data: contractData(r, "", valueStr(r))})
+		default:
+			mk(TxS{Source: src, Type: 100, Extra: manyTargets(r, interest, 1+r.Intn(5))})
+		}
+	}
+	// probe: which addresses did the block create / which beneficiaries exist
+	applyFlags(sc, sc.Height-1, false)
+	root, t := buildParent(sc)
+	for _, rc := range execOnce(sc, root, t).receipts {
+		if rc.ContractAddress != (common.Address{}) {
+			interest = append(interest, a20(rc.ContractAddress))
+			evmStats["created-addresses"]++
+		}
+	}
+	interest = append(interest, senders...)
+	nfollow := 1 + r.Intn(5)
+	for k := 0; k < nfollow; k++ {
+		src := "0x" + senders[r.Intn(len(senders))]
+		switch r.Intn(6) {
+		case 0, 1, 2: // pay the created / destroyed / touched addresses, many dirty accounts
+			mk(TxS{Source: src, Type: 100, Extra: manyTargets(r, interest, 1+r.Intn(8))})
+		case 3, 4: // value call into something of interest
+			mk(TxS{Source: src, Type: 200, Target: "0x" + interest[r.Intn(len(interest))], Data: contractData(r, "", valueStr(r))})
+		default:
+			mk(TxS{Source: src, Type: 200, Data: contractData(r, initLib(r), valueStr(r))})
+		}
+	}
+	for _, x := range sc.Txs {
+		evmStats[fmt.Sprintf("tx type=%d", x.Type)]++
+	}
+	root, t = buildParent(sc)
+	for _, rc := range execOnce(sc, root, t).receipts {
+		evmStats[fmt.Sprintf("receipt status=%d", rc.Status)]++
+		if rc.GasUsed > 0 {
+			evmStats["receipts with gas"]++
+		}
+	}
+	return sc
+}
+
 // ---------------------------------------------------------------- direct site ops
 
 func emitSiteOps(out *hx.Out, r *hx.Rng, i int) {
@@ -1032,14 +1236,27 @@ func nfold(sc *Scenario, n int) map[string]int {
 	return res
 }
 
-func classify(sc *Scenario) (string, string) {
+// classify names the *class* of a violation from the scenario and from what differs between the
+// outcomes (fingerprint = "root=… ev=… rc=…").
+func classify(sc *Scenario, res map[string]int) (string, string) {
 	if len(sc.GlobalHeights) > 0 {
 		return "flags-from-process-chain-height", "proposal flags are read from common.GetBlockHeight() (the node's own chain top), not from the header being executed"
 	}
-	if hasSelfTarget(sc) {
-		return "changeassets-self-target-map-order", "ChangeAssets ranges the targets map; with the source among the targets the balance check outcome depends on iteration order"
+	rest := map[string]bool{}
+	for k := range res {
+		if i := strings.Index(k, " ev="); i >= 0 {
+			rest[k[i:]] = true
+		} else {
+			rest[k] = true
+		}
 	}
-	return "nondeterministic-execution", "same parent state, header and transaction list gave different results"
+	if len(rest) == 1 {
+		return "state-root-differs-receipts-equal", "same parent state, header and transaction list: receipts and evicted list agree but the post-state root does not (order of end-of-block state finalisation / trie writes)"
+	}
+	if hasSelfTarget(sc) {
+		return "changeassets-self-target-map-order", "receipts differ and a transfer has its source among the targets: the balance check outcome depends on the order the targets are walked in"
+	}
+	return "nondeterministic-execution", "same parent state, header and transaction list gave different receipts / evicted lists"
 }
 
 const testContractData = "608060405234801561001057600080fd5b50610113806100206000396000f3fe6080604052348015600f57600080fd5b506004361060325760003560e01c80631003e2d21460375780631f7b6d32146048575b600080fd5b6046604236600460c5565b605d565b005b60005460405190815260200160405180910390f35b600080546001810182559080527f290decd9548b62a8d60345a988386fc84ba6bc95484008f6362f93160ef3e563018190556040518181527fe7031cd6956b2659170d686871156b5a86ec38e9071dfc7e6863f24e5debc10f9060200160405180910390a150565b60006020828403121560d657600080fd5b503591905056fea2646970667358221220e817b443aba8374c91a43c77972eff026499557eb6382c7d874b09bc17ee81a864736f6c634300080c0033"
@@ -1102,7 +1319,7 @@ func search(a map[string]string, r *hx.Rng) {
 		if len(res) <= 1 {
 			return
 		}
-		key, desc := classify(sc)
+		key, desc := classify(sc, res)
 		if seenKey[key] {
 			return
 		}
@@ -1132,10 +1349,19 @@ func search(a map[string]string, r *hx.Rng) {
 		report(sc, res)
 	}
 	// 3. generated
+	kinds := map[string]int{}
 	for i := 0; i < cases; i++ {
-		sc := genScenario(r, i, true)
-		if r.Chance(1, 2) {
-			widen(r, sc)
+		var sc *Scenario
+		if i%2 == 1 {
+			sc = genEvmScenario(r, i)
+			kinds["evm"]++
+		} else {
+			sc = genScenario(r, i, true)
+			kinds["ledger"]++
+			if r.Chance(1, 2) {
+				widen(r, sc)
+				kinds["ledger+miner/contract"]++
+			}
 		}
 		res := nfold(sc, n)
 		evals += n
@@ -1143,7 +1369,7 @@ func search(a map[string]string, r *hx.Rng) {
 		distinct[string(j)] = true
 		report(sc, res)
 	}
-	out := map[string]interface{}{"evaluations": evals, "distinct": len(distinct), "violations": viols, "n": n, "cases": cases}
+	out := map[string]interface{}{"evaluations": evals, "distinct": len(distinct), "violations": viols, "n": n, "cases": cases, "kinds": kinds, "evm": evmStats}
 	j, _ := json.Marshal(out)
 	fmt.Println("SEARCH " + string(j))
 }
